@@ -438,12 +438,33 @@ def _copied(v, fld, kind, deep):
 
 
 def _elements_mutated_in_place(prog, fld):
+    """is some element (row) of the list-typed field `fld` updated in place anywhere in the reaction module?  An element is: the loop
+    variable of a loop whose iterable mentions X.fld (directly, through a local alias, inside zip / enumerate), or a local read from
+    X.fld[i] / alias[i]; it is updated in place by an augmented assignment to it, an item store into it, or `X.fld[i] op= ...`."""
     m = prog.module(RX)
-    for n in ast.walk(m.tree):
-        if isinstance(n, ast.For) and src(n.iter).endswith('.' + fld) and isinstance(n.target, ast.Name):
-            for b in n.body:
-                if isinstance(b, ast.AugAssign) and isinstance(b.target, ast.Name) and b.target.id == n.target.id:
+
+    def is_fld(e, aliases):
+        return (isinstance(e, ast.Attribute) and e.attr == fld) or (isinstance(e, ast.Name) and e.id in aliases)
+    for fn in ast.walk(m.tree):
+        if not isinstance(fn, (ast.FunctionDef, ast.AsyncFunctionDef)):
+            continue
+        aliases = {t.id for n in walk_no_nested(fn) if isinstance(n, ast.Assign) and isinstance(n.value, ast.Attribute) and n.value.attr == fld
+                   for t in n.targets if isinstance(t, ast.Name)}
+        elems = set()
+        for n in walk_no_nested(fn):
+            if isinstance(n, ast.For) and any(is_fld(x, aliases) for x in ast.walk(n.iter)):
+                elems |= {x.id for x in ast.walk(n.target) if isinstance(x, ast.Name)}
+            if isinstance(n, ast.Assign) and isinstance(n.value, ast.Subscript) and is_fld(n.value.value, aliases):
+                elems |= {t.id for t in n.targets if isinstance(t, ast.Name)}
+        for n in walk_no_nested(fn):
+            if isinstance(n, ast.AugAssign):
+                t = n.target
+                if isinstance(t, ast.Name) and t.id in elems:
                     return True
+                if isinstance(t, ast.Subscript) and (is_fld(t.value, aliases) or (isinstance(t.value, ast.Name) and t.value.id in elems)):
+                    return True
+            if isinstance(n, ast.Subscript) and isinstance(n.ctx, ast.Store) and isinstance(n.value, ast.Name) and n.value.id in elems:
+                return True
     return False
 
 
